@@ -374,13 +374,32 @@ func derivesFrom(v ssa.Value, pred func(ssa.Value) bool, depth int) bool {
 			return derivesFrom(x.Call.Value, pred, depth+1)
 		}
 	case *ssa.Alloc:
-		// value stored into the cell
-		for _, r := range *x.Referrers() {
-			if s, ok := r.(*ssa.Store); ok && s.Addr == x {
-				if derivesFrom(s.Val, pred, depth+1) {
-					return true
+		// values stored into the cell or into its elements / fields
+		var stores func(addr ssa.Value, d int) bool
+		stores = func(addr ssa.Value, d int) bool {
+			if d > 4 {
+				return false
+			}
+			for _, r := range *addr.Referrers() {
+				switch y := r.(type) {
+				case *ssa.Store:
+					if y.Addr == addr && derivesFrom(y.Val, pred, depth+1) {
+						return true
+					}
+				case *ssa.IndexAddr:
+					if y.X == addr && stores(y, d+1) {
+						return true
+					}
+				case *ssa.FieldAddr:
+					if y.X == addr && stores(y, d+1) {
+						return true
+					}
 				}
 			}
+			return false
+		}
+		if stores(x, 0) {
+			return true
 		}
 	}
 	return false
